@@ -20,3 +20,5 @@ open GrVerif.Props.C01
 #print axioms code_loader_total
 #print axioms accepted_code_class_lookups_in_bounds
 #print axioms pass_total
+#print axioms glyph_attributes_total
+#print axioms sparse_total
